@@ -28,7 +28,7 @@ ASSUMPTIONS = ['RefDiscrete (sim/ref/discrete.py) is the README definition; prev
 REAL = common.REAL_ALL
 STUBS = common.STUBS_ALL
 PROBES = ['integer_samples_above_2^53', 'one_sample_trace', 'window_longer_than_trace', 'result_starts_with_inf', 'same_name_twice', 'negative_literal',
-          'combined_class', 'declared_constant', 'declared_number_with_more_than_6_digits', 'configured_unit_and_period']
+          'combined_class', 'declared_constant', 'modular_specification', 'declared_number_with_more_than_6_digits', 'configured_unit_and_period']
 
 PRECISE = [1.2345678, 0.1234567891, 3.14159265, 1234567.25, 0.30000000000000004, 2.0000001]
 
@@ -59,6 +59,17 @@ def gen(rng, tier):
     except ValueError:
         notation = None
         text = 'out = ' + sg.to_text(common.consts_to_refs(ast, consts), sg.Spelling(rng)) + (';' if rng.random() < 0.8 else '')
+    subspecs = None
+    if not consts and notation is None and sg.size(ast) >= 4 and rng.random() < 0.2:
+        # the same specification written with named sub-specifications (several assertions in one text, or add_sub_spec)
+        defs, top = sg.modularize(rng, ast, max_subs=3, prefer_stateful=rng.random() < 0.5)
+        sp = sg.Spelling(rng)
+        subs = ['%s = %s;' % (nm, sg.to_text(a, sp)) for nm, a in defs]
+        text = 'out = ' + sg.to_text(top, sp) + ';'
+        if rng.random() < 0.5:
+            text = '\n'.join(subs + [text])
+        else:
+            subspecs = subs
     n = rng.choice([1, 1, 2, 2, 3, 4, 5, 6, 8, 10, 12] + ([16, 20, 24] if big else []))
     data = world.gen_trace(rng, vars_, n, p_bigint=0.06)
     clocks = [world.perfect_clock(n)]
@@ -84,7 +95,7 @@ def gen(rng, tier):
         reunit = False
         second = None
     return {'notation': notation, 'reunit': reunit, 'vars': vars_, 'ast': ast, 'text': text, 'n': n, 'data': data, 'clocks': clocks, 'fired': fired,
-            'cls': cls, 'order': order, 'consts': consts, 'second': second}
+            'cls': cls, 'order': order, 'consts': consts, 'second': second, 'subspecs': subspecs}
 
 
 def run(sc):
@@ -102,6 +113,9 @@ def run(sc):
     text = common.text_of(sc) if sc.get('text') else 'out = ' + sg.to_text(common.consts_to_refs(ast, consts)) + ';'
     desc = {'cls': sc.get('cls', 'dt_off'), 'vars': common.var_decls(sc['vars']), 'spec': text,
             'consts': [[k, 'float', (v if how == 'number' else sg.fmt_num(v))] for k, v, how in consts]}
+    if sc.get('text') and (sc.get('subspecs') or '\n' in text):
+        desc['subspecs'] = sc.get('subspecs') or []
+        r.probes['modular_specification'] += 1
     if sc.get('notation') and sc.get('text'):
         desc.update(units.spec_config(sc['notation']))
         r.probes['configured_unit_and_period'] += 1
